@@ -7,6 +7,7 @@ use vcommon::engine::{Info, Report, TestResult};
 use vcommon::gen::{self, pick, ModelCfg};
 use vcommon::mirror::ModelSpec;
 use vcommon::oracle::{self, UNK};
+#[allow(unused_imports)]
 use vcommon::{ensure, ensure_eq};
 
 use crate::util;
@@ -18,6 +19,9 @@ pub struct TagCase {
     /// per text: boundary edits applied after predict and before fill_tags:
     /// (position selector, 0/1/2 = set that label, 3 = isolate an occurrence of a tag-model token)
     pub edits: Vec<Vec<(u16, u8)>>,
+    /// another model whose predictor predicts and tags the sentence first (no update in between)
+    #[serde(default)]
+    pub pre: Option<ModelSpec>,
 }
 
 pub fn case_strategy(cfg: ModelCfg) -> impl Strategy<Value = TagCase> {
@@ -27,11 +31,13 @@ pub fn case_strategy(cfg: ModelCfg) -> impl Strategy<Value = TagCase> {
             proptest::collection::vec((any::<u16>(), prop_oneof![1 => 0u8..3, 2 => Just(3u8)]), 0..=4),
             cfg.max_texts,
         ),
+        prop::option::weighted(0.35, gen::model_case(cfg)),
     )
-        .prop_map(|(mc, edits)| TagCase {
+        .prop_map(|(mc, edits, pre)| TagCase {
             spec: mc.spec,
             texts: mc.texts,
             edits,
+            pre: pre.map(|m| m.spec),
         })
 }
 
@@ -82,10 +88,26 @@ pub fn test_case(case: &TagCase) -> TestResult {
     for store in [false, true] {
         let mut p = util::predictor(spec, true)?;
         p.store_tag_scores(store);
+        let mut p_pre = match &case.pre {
+            Some(spec) => Some(util::predictor(spec, true)?),
+            None => None,
+        };
+        if let Some(pp) = p_pre.as_mut() {
+            pp.store_tag_scores(!store);
+        }
         for (ti, text) in case.texts.iter().enumerate() {
             let cs = util::chars(text);
             let mut s = Sentence::from_raw(text.clone()).map_err(|e| format!("from_raw: {e}"))?;
+            if let Some(pp) = p_pre.as_ref() {
+                // an earlier prediction + tagging by a different predictor must leave no trace
+                pp.predict(&mut s);
+                s.fill_tags();
+            }
             p.predict(&mut s);
+            if ti % 2 == 1 {
+                // tags filled before the boundaries are edited must be overwritten completely
+                s.fill_tags();
+            }
             let mut labels = util::labels(&s);
             apply_edits(spec, &cs, &mut labels, case.edits.get(ti).map_or(&[][..], |e| &e[..]));
             for (b, &l) in s.boundaries_mut().iter_mut().zip(&labels) {
@@ -162,7 +184,8 @@ pub fn test_case(case: &TagCase) -> TestResult {
             spec.type_ngrams.is_empty() && spec.tag_models.iter().any(|t| !t.type_ngrams.is_empty()),
             "type-tag-ngrams-without-boundary-type-ngrams",
         )
-        .class(edited_unknown, "unknown-boundary-before-fill_tags"))
+        .class(edited_unknown, "unknown-boundary-before-fill_tags")
+        .class(case.pre.is_some(), "tagged-by-another-predictor-first"))
 }
 
 pub fn run(rep: &mut Report) {
